@@ -7,6 +7,7 @@ Require Import Nib.C08.Model Nib.C08.Spec.
 Open Scope Z_scope.
 
 Record case := {
+  c_reached : bool;        (* the wrapper got as far as the precompile (no depth / balance / write-protection rejection) *)
   c_pc : pcid;
   c_kind : kind;
   c_value : Z;            (* wei attached to the call *)
@@ -45,7 +46,7 @@ Definition body_gas_ok (F : facts) (c : case) : bool :=
 
 Definition mismatch (F : facts) (c : case) : bool :=
   let r := model_result F c in
-  negb (outcome_eqb (r_out r) (o_class c)
+  c_reached c && negb (outcome_eqb (r_out r) (o_class c)
         && (outcome_eqb (o_class c) Panic || (r_left r =? o_left c))
         && (negb (r_st r =? 0) || o_state_eq c || outcome_eqb (o_class c) Panic)
         && body_gas_ok F c).
@@ -53,5 +54,5 @@ Definition mismatch (F : facts) (c : case) : bool :=
 Definition case_method (F : facts) (c : case) : option method_facts := selected (pc_of F (c_pc c)) (c_inp c).
 
 Definition violates (F : facts) (c : case) : bool :=
-  negb (Pb (c_kind c) (c_value c) (c_gas c) (case_method F c) (o_class c) (o_left c) (o_state_eq c) (o_core_eq c)
+  c_reached c && negb (Pb (c_kind c) (c_value c) (c_gas c) (case_method F c) (o_class c) (o_left c) (o_state_eq c) (o_core_eq c)
         && Pb_nested (c_kind c) (case_method F c) (o_class c) (o_state_eq c)).
